@@ -345,48 +345,71 @@ type sbInfo struct {
 }
 
 func sbParseInfo(line string) sbInfo {
+	// Keyword driven: `info` followed by fields `<key> <integer>` (score: `score cp|mate <integer>`) in any
+	// order, then optionally `pv` and the moves up to the end of the line. The properties talk about the
+	// depth, the node count, the score and the variation; further fields (time, hashfull, seldepth, nps,
+	// whatever a later version adds) are skipped, so that a richer info line is not mistaken for a
+	// malformed one. Kind 1 = a line with a variation field, 2 = the bare `info depth D nodes N` abort line.
 	in := sbInfo{Raw: line}
 	f := strings.Fields(line)
-	if len(f) < 5 || f[0] != "info" || f[1] != "depth" {
+	if len(f) < 3 || f[0] != "info" {
 		return in
 	}
-	var err error
-	if in.Depth, err = strconv.Atoi(f[2]); err != nil {
-		return in
-	}
-	if f[3] == "nodes" && len(f) == 5 {
-		if in.Nodes, err = strconv.Atoi(f[4]); err != nil {
-			return in
+	var haveDepth, haveNodes, haveScore, havePV bool
+	i := 1
+	for i < len(f) {
+		key := f[i]
+		if key == "pv" {
+			havePV = true
+			in.PV = f[i+1:]
+			break
 		}
+		if key == "info" || key == "bestmove" || key == "readyok" || i+1 >= len(f) {
+			return sbInfo{Raw: line}
+		}
+		if key == "score" {
+			if i+2 >= len(f) {
+				return sbInfo{Raw: line}
+			}
+			switch f[i+1] {
+			case "cp":
+				in.ScoreKind = 1
+			case "mate":
+				in.ScoreKind = 2
+			default:
+				in.ScoreKind = 3
+			}
+			v, err := strconv.Atoi(f[i+2])
+			if err != nil {
+				in.ScoreKind = 3
+			}
+			in.ScoreVal = v
+			haveScore = true
+			i += 3
+			continue
+		}
+		v, err := strconv.Atoi(f[i+1])
+		if err != nil {
+			return sbInfo{Raw: line}
+		}
+		switch key {
+		case "depth":
+			in.Depth, haveDepth = v, true
+		case "nodes":
+			in.Nodes, haveNodes = v, true
+		case "hashfull":
+			in.HashFull = v
+		}
+		i += 2
+	}
+	switch {
+	case haveDepth && haveNodes && haveScore && havePV:
+		in.Kind = 1
+	case haveDepth && haveNodes && !haveScore && !havePV:
 		in.Kind = 2
-		return in
-	}
-	// info depth D score cp|mate V nodes N time T hashfull H pv ...
-	if len(f) < 13 || f[3] != "score" || f[6] != "nodes" || f[8] != "time" || f[10] != "hashfull" || f[12] != "pv" {
-		return in
-	}
-	switch f[4] {
-	case "cp":
-		in.ScoreKind = 1
-	case "mate":
-		in.ScoreKind = 2
 	default:
-		in.ScoreKind = 3
+		return sbInfo{Raw: line}
 	}
-	if in.ScoreVal, err = strconv.Atoi(f[5]); err != nil {
-		in.ScoreKind = 3
-	}
-	if in.Nodes, err = strconv.Atoi(f[7]); err != nil {
-		return in
-	}
-	if _, err = strconv.Atoi(f[9]); err != nil {
-		return in
-	}
-	if in.HashFull, err = strconv.Atoi(f[11]); err != nil {
-		return in
-	}
-	in.PV = f[13:]
-	in.Kind = 1
 	return in
 }
 
